@@ -41,3 +41,37 @@ package nasConvert
 //@   loop 0 invariant numOfBytes <= len(data)
 //@   loop 0 decreases 4*numOfBytes + ite(readingState == 2, 1, 0)
 //@ end
+
+// ---- C17: timers, bit rates, time zones ----
+// spec.* are the definitions of /verif/spec (TS 24.008 10.5.7.4 / 10.5.7.4a, 10.5.3.8; TS 24.501 Table 9.11.4.14.1).
+
+//@ func GPRSTimer2ToNas(timerValue) (r)
+//@   requires 0 <= timerValue && timerValue <= 11160
+//@   assigns nothing
+//@   specfuel 9
+//@   ensures spec.GPRSTimer2Dec(r) <= timerValue
+//@   ensures implies(spec.GPRSTimer2Repr(timerValue), spec.GPRSTimer2Dec(r) == timerValue)
+//@ end
+
+//@ func GPRSTimer3ToNas(timerValue) (r)
+//@   requires 0 <= timerValue && timerValue <= 1116000
+//@   assigns nothing
+//@   specfuel 9
+//@   ensures spec.GPRSTimer3Dec(r) <= timerValue
+//@   ensures implies(spec.GPRSTimer3Repr(timerValue), spec.GPRSTimer3Dec(r) == timerValue)
+//@ end
+
+//@ func strToAMBRUnit(unit) (r)
+//@   assigns nothing
+//@   ensures implies(unit == "Kbps", r == 1)
+//@   ensures implies(unit == "Mbps", r == 6)
+//@   ensures implies(unit == "Gbps", r == 11)
+//@   ensures implies(unit == "Tbps", r == 16)
+//@   ensures implies(unit == "Pbps", r == 21)
+//@ end
+
+//@ func getTimeZoneOffset(timezone) (r)
+//@   assigns nothing
+//@   specfuel 9
+//@   ensures r == spec.TimeZoneSeconds(timezone)
+//@ end
